@@ -241,7 +241,8 @@ def correspondence(ctx):
                [(0x2FE0, 0x2FEF, 'So', 0, 'ON', 0x25A1, True), S(0x3000, 'Zs', 'WS', w=0x20), S(0xFF01, 'Po', 'ON', w=0x21)],
                [S(0x3000, 'Zs', 'WS', w=0x20), (0x3400, 0x3410, 'Lo', 0, 'L', 0x4E00, True), (0x3420, 0x3430, 'Lo', 0, 'L', 0x4E01, True), S(0xFF01, 'Po', 'ON', w=0x21)],
                [S(0xD800, 'Zs'), S(0xDFFF, 'Zs'), S(0xE000, 'Zs')], [(0xDFF0, 0xE010, 'Zs', 0, 'R', None, True), S(0xE011, 'Zs', 'R')]]
-    for _ in range(250 if ctx.tier == 'quick' else 4000):
+    # escalated quick run (source changed): 1500 directories (~4 min) rather than the 4000 of the thorough tier
+    for _ in range(250 if ctx.tier == 'quick' else (1500 if ctx.requested_tier == 'quick' else 4000)):
         inputs.append(gen_rows(rng))
     # property files: hand-picked line orders (ascending; blocks listed out of order; adjacent pieces split over
     # non-adjacent lines so that merging needs the sort) plus random ones for every input
